@@ -146,6 +146,54 @@ def mon_line(prefix, ops, out):
     return " ".join(toks)
 
 
+def resolve_natural(ops, out):
+    """A natural-time history (W<ms> = advance the clock, the library's own timer loop fires what
+    is due) as a forced-timer history: which timers fired is read off the implementation's trace
+    (a datagram with an id that was on the wire before = that node's timer, retransmission; a NACK
+    TOO_MANY_RETRIES = that node's timer, give-up - the datagrams in front of it are the held
+    messages it released).  -> (ops', expected outputs per op') or None if the trace cannot be
+    explained that way (then the model certainly disagrees)."""
+    gs = groups(out)
+    if gs is None or len(gs) != len(ops):
+        return None
+    seen = set()
+    rops, rexp = [], []
+    for op, items in zip(ops, gs):
+        if op[0] != "W":
+            sid = re.match(r"[A-Z](\d+)", op).group(1)
+            for it in items:
+                if it[0] == "T" and it[1] in "cn":
+                    seen.add((sid, it[2:].split(".")[0]))
+            rops.append(op)
+            rexp.append(items)
+            continue
+        pend = {}
+        for it in items:
+            m = re.match(r"(.*)@(\d+)$", it)
+            if not m:
+                return None
+            body, sid = m.group(1), m.group(2)
+            if body[0] == "T" and body[1] in "cn":
+                mid = body[2:].split(".")[0]
+                if (sid, mid) in seen:
+                    if pend.get(sid):
+                        return None
+                    rops.append("T%s,%s" % (sid, mid))
+                    rexp.append([body])
+                else:
+                    seen.add((sid, mid))
+                    pend.setdefault(sid, []).append(body)
+            elif body.startswith("N0."):
+                mid = body.split(".")[1]
+                rops.append("T%s,%s" % (sid, mid))
+                rexp.append(pend.pop(sid, []) + [body])
+            else:
+                return None
+        if any(pend.values()):
+            return None
+    return rops, rexp
+
+
 def peer_ok(ops, out):
     """the peer of the property: ACK / RST only for message ids that were on the wire before"""
     gs = groups(out)
@@ -243,6 +291,30 @@ def main(run):
     mon_out, _ = vlib.run_lines_robust(model, mon_in)
     verdict = dict(zip(mon_idx, mon_out))
 
+    # natural-time histories: replay in the model with the timer firings the implementation chose
+    nat_idx = [i for i, c in enumerate(cases) if c[2].get("natural")]
+    nat_res = {}
+    nat_lines = []
+    for i in nat_idx:
+        rr = resolve_natural(cases[i][1], oc[i])
+        nat_res[i] = rr
+        nat_lines.append(gen_nstart.line_of(cases[i][0], rr[0]) if rr else "ns 1 1 1,1,1,1")
+    nat_out, _ = vlib.run_lines_robust(model, nat_lines)
+    nat_model = dict(zip(nat_idx, nat_out))
+    run.cov["natural_time_replayed_in_model"] = sum(1 for i in nat_idx if nat_res[i])
+    run.cov["natural_time_timer_firings"] = sum(len(nat_res[i][0]) - sum(1 for o in cases[i][1] if o[0] != "W")
+                                                for i in nat_idx if nat_res[i])
+
+    def nat_agrees(i_or_none, prefix, ops, cout, mout=None):
+        rr = resolve_natural(ops, cout)
+        if rr is None:
+            return False, "timer firings of the implementation cannot be explained"
+        if mout is None:
+            mo, _ = vlib.run_lines_robust(model, [gen_nstart.line_of(prefix, rr[0])])
+            mout = mo[0]
+        exp = " ".join("%d:%s" % (k, ",".join(x)) for k, x in enumerate(rr[1]))
+        return canon(mout, rr[0]) == canon(exp, rr[0]), "model on resolved history: %s" % mout
+
     def check_one(prefix, ops):
         """-> (kind, detail) for a single case; kind in ok / oracle / tie / crash"""
         ln = gen_nstart.line_of(prefix, ops)
@@ -259,6 +331,10 @@ def main(run):
             m, _ = vlib.run_lines_robust(model, [ln])
             if canon(m[0], ops) != canon(c[0], ops):
                 return "tie", "model: %s" % m[0]
+        elif "E" not in ops:
+            ok, detail = nat_agrees(None, prefix, ops, c[0])
+            if not ok:
+                return "tie", detail
         return "ok", ""
 
     nbad = 0
@@ -288,6 +364,9 @@ def main(run):
             kind, what = "oracle", "history rejected by the property checker (%s)" % verdict.get(i, "unparsed")
         elif not nat and canon(model_out.get(i, "<missing>"), ops) != canon(co, ops):
             kind, what = "tie", "implementation differs from the proved model"
+        elif nat and not nat_agrees(i, prefix, ops, co, nat_model.get(i))[0]:
+            kind, what = "tie", ("implementation differs from the proved model (natural-time history "
+                                 "replayed with the implementation's own timer firings)")
         if not kind:
             continue
         nbad += 1
@@ -304,7 +383,7 @@ def main(run):
             continue
         reported.add(sl)
         c1, _ = run_cases(drv, [sl])
-        m1 = ["(natural-time history: no model prediction)"]
+        m1 = ["(natural-time history: %s)" % (nat_agrees(None, prefix, small, c1[0])[1] if c1 else "")]
         if not any(o[0] == "W" for o in small):
             m1, _ = vlib.run_lines_robust(model, [sl])
         replay = ("case: %s\nimpl : %s\nmodel: %s\nchecker on impl trace: %s\n(original case: %s)\n"
